@@ -4,11 +4,18 @@
 
 package encoder
 
-// base64url (raw) decoding is a partial function of the string (assumed; bounded check in C08)
+// base64url (raw): encode/decode are inverse (assumed; bounded check in C08)
+//@ spec b64(b bytes) string
 //@ spec b64ok(s string) bool
 //@ spec b64dec(s string) bytes
+//@ axiom b64-inverse: forall b bytes :: b64ok(b64(b)) && b64dec(b64(b)) == b
+//@ axiom b64-nonempty: forall b bytes :: len(b) > 0 ==> b64(b) != ""
+//@ axiom b64-inverse2: forall s string :: b64ok(s) ==> b64(b64dec(s)) == s
 //@ func DecodeString
 //@   trusted
 //@   results out, err
 //@   ensures (err == nil) == b64ok(encodedContent)
 //@   ensures err == nil ==> out == b64dec(encodedContent)
+//@ func EncodeToString
+//@   trusted
+//@   ensures result == b64(data)
